@@ -60,8 +60,22 @@ def gen_script(w, rng, maxops=40):
     ins(first)
     ops.append(("run",))
     look(rng.randrange(2, 6))
-    choice = rng.randrange(6)
-    if choice >= 4 and rest:
+    choice = rng.randrange(8)
+    if choice >= 6 and rest:
+        # a second, independent instance of the same program with other inputs; the first must be unaffected
+        ops.append(("instance", "1"))
+        ops.append(("threads", str(rng.choice([1, 2, 4]))))
+        ins(rest[: rng.randrange(1, len(rest) + 1)])
+        ops.append(("run",))
+        look(rng.randrange(2, 5))
+        ops.append(("instance", "0"))
+        look(rng.randrange(2, 5))
+        if choice == 7:
+            ops += [("purgeout",), ("purgeinternal",), ("run",)]
+            look(2)
+            ops.append(("instance", "1"))
+            look(2)
+    elif choice >= 4 and rest:
         # purge everything, insert a *different* input set (not a superset of the first), re-run: results must be those of
         # the new inputs alone (nothing of the purged generation may survive in any index)
         ops += [("purgein",), ("purgeout",), ("purgeinternal",)]
@@ -142,6 +156,35 @@ class Model:
                 self.rels[op[1]] = set()
         if k in ("run", "insert"):
             self._p_purgeout = self._p_purgeinternal = False
+
+
+class MultiModel:
+    """several independent program instances; 'instance K' switches the current one"""
+
+    def __init__(self, w, ref_fn):
+        self.w, self.ref_fn = w, ref_fn
+        self.models = [Model(w, ref_fn)]
+        self.cur = 0
+
+    @property
+    def known(self):
+        return self.models[self.cur].known
+
+    @property
+    def rels(self):
+        return self.models[self.cur].rels
+
+    def contents(self, rel):
+        return self.models[self.cur].contents(rel)
+
+    def apply(self, op):
+        if op[0] == "instance":
+            k = int(op[1])
+            while len(self.models) <= k:
+                self.models.append(Model(self.w, self.ref_fn))
+            self.cur = k
+            return
+        self.models[self.cur].apply(op)
 
 
 def finalise(script, model_factory, rng):
@@ -322,7 +365,7 @@ class ApiProgram:
         f = psim.basic_failures(None, res)
         if f:
             return f
-        return expected_and_check(script, lambda: Model(self.w, self.reference), res["stdout"], res["printall"])
+        return expected_and_check(script, lambda: MultiModel(self.w, self.reference), res["stdout"], res["printall"])
 
 
 def check_c21(tier):
@@ -355,7 +398,7 @@ def check_c21(tier):
             if time.time() > deadline:
                 break
             raw = gen_script(w, rng)
-            script = finalise(raw, lambda: Model(w, ap.reference), rng)
+            script = finalise(raw, lambda: MultiModel(w, ap.reference), rng)
             for s in range(sched_per_hist):
                 if time.time() > deadline:
                     break
